@@ -7,6 +7,7 @@
     [C04_holds i o] is "the boolean specification [spec_ok_C04] accepts observation [o]"
     (Spec/QrReportSpec.v) — the same function that judges the observations of the C program. *)
 From Qv Require Import Common.Bytes Gen.GenQremote Model.QrEnvelope Spec.QrReportSpec Proofs.QrEnvelopeProofs.
+From Qv Require Model.TlsClient Model.QrConnect Spec.QrConnectSpec Proofs.QrConnectProofs.
 
 (** 1. For EVERY script, recipient list (also none) and extension set: the run ends in exit(0)
     (main never returns), the status stream is a non-empty sequence of NUL-terminated reports, each
@@ -91,3 +92,82 @@ Example C04_nonvacuous :
   exists status net, qremote_main i = Obs 0 status net
     /\ map (fun r => hd 0%N r) (fst (split0 status)) = [L_r; L_s; L_h; L_K].
 Proof. split; [vm_compute; reflexivity|]. eexists _, _. split; vm_compute; reflexivity. Qed.
+
+(* ====================================================================================== *)
+(** * The connect phase (qremote/conn_mx.c:connect_mx and main() around it)
+
+    [QrConnect.connect_phase fx_err fx_dup k]: the model of main() from getmxlist() to the call of
+    send_envelope(): TlsClient's literal model of connect_mx() / greeting() / tls_init() (property C18)
+    plus silent servers and a failing dup2(); [k] gives, per MX entry, the server's bytes in the
+    segments it sends them, whether it closes or stays silent at the end, and the OpenSSL oracles.
+    [fx_err]/[fx_dup]: do the two early exits of connect_mx() report first (the code that exists:
+    [QR_CONN_ERR_REPORTS], [QR_CONN_DUP2_REPORTS] from the C source of this run). *)
+
+(** 5. The code of this run reports before both exits (false on a tree without
+    fixes/C04-connect-mx-status.diff: the theorems below then speak about code that does not exist). *)
+Theorem C04_connect_fix_present : QR_CONN_ERR_REPORTS = true /\ QR_CONN_DUP2_REPORTS = true.
+Proof. split; [exact QrConnectProofs.fix_conn_err|exact QrConnectProofs.fix_conn_dup2]. Qed.
+Print Assumptions C04_connect_fix_present.
+
+(** 6. For EVERY behaviour of the servers in the connect phase (any number of MX entries; any bytes in any
+    segmentation: no greeting, 4xx/5xx greeting, multi-line greeting with differing codes, malformed or
+    over-long lines; close or silence at any point; EHLO refused then HELO; any STARTTLS outcome):
+    the phase never gets stuck; if the process exits in it -- inside connect_mx(), by "can't connect
+    to any server", or by the pinned-certificate refusal -- at least one report was written and every
+    report starts with Z; if it hands a connection to send_envelope(), the status stream is still empty. *)
+Theorem C04_connect_reports : forall k,
+  match QrConnect.connect_phase true true k with
+  | QrConnect.PExited s => TlsClient.s_rpt s <> [] /\ Forall QrConnectProofs.zword (TlsClient.s_rpt s)
+  | QrConnect.PConnected _ _ s => TlsClient.s_rpt s = []
+  | QrConnect.PStuck _ => False
+  end.
+Proof. exact QrConnectProofs.connect_phase_reports. Qed.
+Print Assumptions C04_connect_reports.
+
+(** 7. From connect to exit: either the process exits in the connect phase with a non-empty sequence of
+    reports, or the envelope model takes over with an empty status stream and the negotiated extension
+    set, and then (theorem 1, for every script, recipient list and message) the run ends in exit(0)
+    with a non-empty sequence of well-formed reports.  (The envelope model is the clear-text one: for a
+    connection inside TLS only the texts of the success report differ, successmsg[3..5].) *)
+Theorem C04_connect_to_exit : forall k,
+  match QrConnect.connect_phase true true k with
+  | QrConnect.PExited s => TlsClient.s_rpt s <> [] /\ Forall QrConnectProofs.zword (TlsClient.s_rpt s)
+  | QrConnect.PConnected _ ext s =>
+      TlsClient.s_rpt s = [] /\
+      forall i, i_ext i = Z.to_N ext ->
+        match qremote_main i with
+        | Obs code status net =>
+            code = 0 /\ exists reps, reps <> [] /\ status = flat reps
+              /\ Forall (fun r => nulfree r /\ letter_ok (hd 0%N r) = true) reps
+        | ObsUnmodelled _ => True
+        | ObsReturned => False
+        end
+  | QrConnect.PStuck _ => False
+  end.
+Proof.
+  intros k. pose proof (QrConnectProofs.connect_phase_reports k) as H.
+  destruct (QrConnect.connect_phase true true k); auto.
+  split; [exact H|]. intros i _. exact (main_wellformed i).
+Qed.
+Print Assumptions C04_connect_to_exit.
+
+(** 8. The code before the fix: a server that accepts the connection and stays silent (resp. a failing
+    dup2()) makes Qremote exit with an EMPTY status stream. *)
+Theorem C04_connect_refuted :
+  (match QrConnect.connect_phase false true QrConnectProofs.W_silent with
+   | QrConnect.PExited s => TlsClient.s_rpt s = [] | _ => False end)
+  /\ (match QrConnect.connect_phase true false QrConnectProofs.W_dup2 with
+      | QrConnect.PExited s => TlsClient.s_rpt s = [] | _ => False end).
+Proof. split; [exact QrConnectProofs.unfixed_silent_exit|exact QrConnectProofs.unfixed_dup2_exit]. Qed.
+Print Assumptions C04_connect_refuted.
+
+(** 9. The run of the qrconn harness (behind a connection: the stand-in for send_envelope(), then the
+    clean shutdown) passes the boolean specification [conn_spec_ok] that also judges the C observations. *)
+Theorem C04_connect_spec_holds : forall k,
+  match QrConnect.run_q_with true true k with
+  | TlsClient.Exit s =>
+      QrConnectSpec.conn_spec_ok 0 (QrConnectProofs.mail_of (QrConnect.connect_phase true true k)) (TlsClient.s_rpt s) true = true
+  | _ => False
+  end.
+Proof. exact QrConnectProofs.run_q_spec. Qed.
+Print Assumptions C04_connect_spec_holds.
